@@ -36,7 +36,6 @@ SPEC = {
     "is_insertion_encodable": G.spec_insertion_encodable,
 }
 KINDS = ("list", "tuple", "set", "frozenset", "generator", "iter", "Basis", "deque", "dict_keys")
-ONE_SHOT = ("generator", "iter")
 
 
 _LOCK_PID = None
